@@ -17,7 +17,9 @@ EXTENDS Integers, Sequences, FiniteSets
 
 CONSTANTS Grid,        \* positions 0..Grid
           MaxTry,      \* try budget (num_max_try)
-          MaxBlocked   \* at most this many blocked cells
+          MaxBlocked,  \* at most this many blocked cells
+          EagerAdd     \* FALSE: as specified.  TRUE: a named deviation in which `extend' adds the candidate vertex
+                       \* before asking whether it is free (MC_RrtDeviation shows that TreesFree / PathOK then fail)
 
 VARIABLES start, goal, len, blocked, stopAt,   \* scenario (chosen initially)
           ta, tb, nameA,                        \* active tree, other tree, name of the active tree
@@ -65,6 +67,9 @@ Sample(x) ==
        /\ IF Free(c)
           THEN /\ ta' = Append(ta, [q |-> c, p |-> n]) /\ newIdx' = Len(ta) + 1 /\ target' = c
                /\ phase' = "connect" /\ UNCHANGED <<tb, nameA, tries>>
+          ELSE IF EagerAdd
+          THEN /\ ta' = tb /\ tb' = Append(ta, [q |-> c, p |-> n]) /\ nameA' = (IF nameA = "start" THEN "goal" ELSE "start")
+               /\ tries' = tries + 1 /\ phase' = "head" /\ UNCHANGED <<newIdx, target>>   \* (deviation: vertex kept although trapped)
           ELSE /\ Swap /\ tries' = tries + 1 /\ phase' = "head" /\ UNCHANGED <<newIdx, target>>   \* trapped
   /\ UNCHANGED <<scenario, result>>
 
